@@ -197,7 +197,7 @@ def check_case(case, ctx):
         if V.size:
             worst = max(worst, max(-float(np.min(np.linalg.eigvalsh((V + V.T) / 2))), float(np.max(np.abs(V - V.T)))) / (1 + mag))
     ctx.observe("instance_violation", worst)
-    if worst > 5 * k:
+    if worst > 5 * k and not oracles.solver_point_infeasible(pep.wrapper, ctx):
         ctx.fail("instance-infeasible-after-heuristic", "a sent constraint / LMI is violated by %.3e (relative) at the "
                  "instance returned with %s" % (worst, opts["drh"]))
     metrics = [sem.val_expr(e, val)[0] for e in env.declared_metrics]
